@@ -252,6 +252,31 @@ def gen_history(rng, thorough):
     n_per_ns = {NSS[0]: rng.choice([99, 101, 102, 150, 230] if big else [0, 1, 2, 3, 5, 8, 13, 21]),
                 NSS[1]: rng.choice([0, 2, 4, 7])}
     ops = []
+    if rng.random() < 0.15:
+        # whole enumeration (theorems C14_whole_enumeration / C14_terminates_with_keepalive): optionally another live
+        # session first, then Open + a pull loop of the right kind that is longer than the result set, keep-alive
+        # pulls (MaxObjectCount=0) interspersed, and pulls after end-of-sequence (must be refused, change nothing)
+        pre = 0
+        if rng.random() < 0.4 and n_per_ns[NSS[0]] >= 5:     # every Open then has > 1 result: a context is returned
+            method, kind, trad, needs_src = rng.choice(OPENS)
+            ops.append({'op': 'open', 'method': method, 'kind': kind, 'trad': trad, 'ns': 0,
+                        'src': 'p0' if needs_src else None, 'max': 1, 'passnone': False,
+                        'args': {}, 'params': {}, 'clsform': 'str'})
+            pre = 1
+        method, kind, trad, needs_src = rng.choice(OPENS)
+        nsi = rng.choice([0, 0, 1])
+        ops.append({'op': 'open', 'method': method, 'kind': kind, 'trad': trad, 'ns': nsi,
+                    'src': 'p0' if needs_src else None, 'max': rng.choice([None, 0, 0, 1, 2, 3]),
+                    'passnone': rng.random() < 0.5, 'args': gen_args(rng, method), 'params': {},
+                    'clsform': 'str'})
+        npos = 0
+        need = 2 * n_per_ns[NSS[nsi]] + 3
+        while npos < need and len(ops) < 600:
+            mx = rng.choice([0, 1, 1, 1, 2, 3, 7] if not big else [0, 1, 50, 100, 100])
+            npos += 1 if mx > 0 else 0
+            # ctx index: `pre` when the first Open returned a context (result set > 1), else 0; both are tried
+            ops.append({'op': 'pull', 'kind': kind, 'ctx': pre, 'max': mx, 'match': True})
+        return n_per_ns, ops
     nops = rng.randint(3, 18)
     opened = 0          # upper bound of context ids handed out so far
     removed = set()
